@@ -93,7 +93,7 @@ CLAIMED.update({
    note="Unmanaged content is what the generator adds; names carry fixed markers so the projection is exact."),
  "C08": dict(category="exploration", design="DESIGN.md §3 C08",
    technique="runtime monitoring: device models that reject exactly the five rule classes of the statement while executing the emitted script in order",
-   text="Every command of the scripts for ASA, IOS, PAN-OS and NSX pairs is executed in order on the models, which reject references to absent objects, deletion of referenced objects, duplicate ACL entries, wrong line/sequence positions and sub-commands outside their mode (an 'exit' at (config) level leaves configuration mode, what follows is refused); joined two-command entries are judged after both halves; every 4th PAN-OS/NSX pair is a complete live approve against the simulator backed by the model.",
+   text="Every command of the scripts for ASA, IOS, PAN-OS and NSX pairs is executed in order on the models, which reject references to absent objects, deletion of referenced objects, duplicate ACL entries, wrong line/sequence positions and sub-commands outside their mode (an 'exit' at (config) level leaves configuration mode, what follows is refused); joined two-command entries are judged after both halves; every 4th PAN-OS/NSX pair and every 8th ASA/IOS pair is a complete live approve against the simulator backed by the model.",
    note="Nothing beyond the five rules is demanded; other irregularities are anomalies; unmodelled commands are inconclusive."),
 })
 
